@@ -717,7 +717,7 @@ class Ctx:
 def default_value(name, salt=0):
     """generic (non-degenerate, deterministic) value for an input the counterexample does not constrain.
     The replay tries several families (salt): white noise (0, 1), smooth / strongly autocorrelated (2), alternating (3),
-    trend + noise (4); the position along the chain is the trailing integer of the input's name."""
+    trend + noise (4), tiny (5) and huge (6) magnitudes; the position along the chain is the trailing integer of the input's name."""
     import zlib
     import re
     h = zlib.crc32(('%s#%s' % (name, salt)).encode())
@@ -730,6 +730,10 @@ def default_value(name, salt=0):
         return 1.0 + 0.5 * (-1) ** k + 0.1 * u
     if salt == 4:
         return 0.3 + 0.15 * k + 0.2 * u
+    if salt == 5:
+        return 1e-7 * (0.5 + u)           # tiny magnitudes: absolute tolerances / cut-offs in the code show up
+    if salt == 6:
+        return 1e6 * (0.5 + u)
     return 0.5 + u
 
 
